@@ -1,7 +1,7 @@
 (* C01 proofs: matcher soundness, arithmetic of the distribution, soundness of the
    pattern / length rewriter inside the stated regions, refutation witnesses outside. *)
 From Coq Require Import List NArith ZArith Bool Lia.
-From Verif Require Import Common.Str C01.Model_C01.
+From Verif Require Import Common.Str Common.Json C01.Model_C01.
 Import ListNotations.
 Open Scope Z_scope.
 
@@ -1059,3 +1059,548 @@ Qed.
 Definition calls_two : list (N * gsettings) := [(0%N, (true, CodecUtf8)); (0%N, (false, CodecAscii))].
 Lemma cache_refuted : run_calls [] calls_two <> map snd calls_two /\ nth 1 (run_calls [] calls_two) (false, CodecAscii) = (true, CodecUtf8).
 Proof. split; [vm_compute; discriminate | vm_compute; reflexivity]. Qed.
+
+(* ------------------------------------------------------------------------------------ *)
+(* 9. Aliasing: a conversion with copy = true leaves every live object unchanged          *)
+(* ------------------------------------------------------------------------------------ *)
+Section PvInd.
+  Variable P : pv -> Prop.
+  Hypothesis Ha : forall a, P (PA a).
+  Hypothesis Hd : forall i kv, Forall (fun e => P (snd e)) kv -> P (PD i kv).
+  Hypothesis Hl : forall i xs, Forall P xs -> P (PL i xs).
+  Fixpoint pv_ind' (t : pv) : P t :=
+    match t with
+    | PA a => Ha a
+    | PD i kv => Hd i kv ((fix go (l : list (str * pv)) : Forall (fun e => P (snd e)) l :=
+                             match l with [] => Forall_nil _ | x :: r => Forall_cons _ (pv_ind' (snd x)) (go r) end) kv)
+    | PL i xs => Hl i xs ((fix go (l : list pv) : Forall P l :=
+                             match l with [] => Forall_nil _ | x :: r => Forall_cons _ (pv_ind' x) (go r) end) xs)
+    end.
+End PvInd.
+
+(* the nested fixpoints of the model as maps / forallb *)
+Lemma all_ids_PD P i kv : all_ids P (PD i kv) = P i && forallb (fun e => all_ids P (snd e)) kv.
+Proof.
+  cbn [all_ids]. apply f_equal. induction kv as [|[k v] r IH]; [reflexivity|]. cbn [forallb snd]. rewrite <- IH. reflexivity.
+Qed.
+Lemma all_ids_PL P i xs : all_ids P (PL i xs) = P i && forallb (all_ids P) xs.
+Proof.
+  cbn [all_ids]. apply f_equal. induction xs as [|v r IH]; [reflexivity|]. cbn [forallb]. rewrite <- IH. reflexivity.
+Qed.
+Definition upd_kv (i : N) (m : mutn) (kv : list (str * pv)) := map (fun e => (fst e, upd i m (snd e))) kv.
+Lemma upd_PD i m j kv : upd i m (PD j kv) = if N.eqb j i then do_mut m (PD j (upd_kv i m kv)) else PD j (upd_kv i m kv).
+Proof.
+  cbn [upd]. assert (E : (fix go (l : list (str * pv)) : list (str * pv) :=
+            match l with [] => [] | (k, v) :: r => (k, upd i m v) :: go r end) kv = upd_kv i m kv).
+  { induction kv as [|[k v] r IH]; [reflexivity|]. cbn [upd_kv map fst snd]. rewrite IH. reflexivity. }
+  rewrite E. reflexivity.
+Qed.
+Lemma upd_PL i m j xs : upd i m (PL j xs) = if N.eqb j i then do_mut m (PL j (map (upd i m) xs)) else PL j (map (upd i m) xs).
+Proof.
+  cbn [upd]. assert (E : (fix go (l : list pv) : list pv :=
+            match l with [] => [] | v :: r => upd i m v :: go r end) xs = map (upd i m) xs).
+  { induction xs as [|v r IH]; [reflexivity|]. cbn [map]. rewrite IH. reflexivity. }
+  rewrite E. reflexivity.
+Qed.
+Lemma shift_PD n i kv : shift n (PD i kv) = PD (i + n)%N (map (fun e => (fst e, shift n (snd e))) kv).
+Proof.
+  cbn [shift]. apply f_equal. induction kv as [|[k v] r IH]; [reflexivity|]. cbn [map fst snd]. rewrite IH. reflexivity.
+Qed.
+Lemma shift_PL n i xs : shift n (PL i xs) = PL (i + n)%N (map (shift n) xs).
+Proof.
+  cbn [shift]. apply f_equal. induction xs as [|v r IH]; [reflexivity|]. cbn [map]. rewrite IH. reflexivity.
+Qed.
+Lemma bound_PD i kv : bound (PD i kv) = N.max (i + 1)%N (fold_right (fun e acc => N.max (bound (snd e)) acc) 0%N kv).
+Proof.
+  cbn [bound]. apply f_equal. induction kv as [|[k v] r IH]; [reflexivity|]. cbn [fold_right snd]. rewrite IH. reflexivity.
+Qed.
+Lemma bound_PL i xs : bound (PL i xs) = N.max (i + 1)%N (fold_right (fun v acc => N.max (bound v) acc) 0%N xs).
+Proof.
+  cbn [bound]. apply f_equal. induction xs as [|v r IH]; [reflexivity|]. cbn [fold_right]. rewrite IH. reflexivity.
+Qed.
+
+Lemma all_ids_impl (P Q : N -> bool) t : (forall j, P j = true -> Q j = true) -> all_ids P t = true -> all_ids Q t = true.
+Proof.
+  intros HPQ. induction t as [a|i kv IH|i xs IH] using pv_ind'; [reflexivity| |].
+  - rewrite !all_ids_PD. intros H. apply andb_true_iff in H. destruct H as [H1 H2].
+    apply andb_true_iff. split; [apply HPQ; exact H1|].
+    rewrite forallb_forall in *. intros e He. rewrite Forall_forall in IH. apply (IH e He). apply H2. exact He.
+  - rewrite !all_ids_PL. intros H. apply andb_true_iff in H. destruct H as [H1 H2].
+    apply andb_true_iff. split; [apply HPQ; exact H1|].
+    rewrite forallb_forall in *. intros e He. rewrite Forall_forall in IH. apply (IH e He). apply H2. exact He.
+Qed.
+Lemma lt_ids_mono a b t : (a <= b)%N -> lt_ids a t = true -> lt_ids b t = true.
+Proof.
+  intros Hab. apply all_ids_impl. intros j Hj. apply N.ltb_lt in Hj. apply N.ltb_lt. lia.
+Qed.
+Lemma ge_ids_mono a b t : (b <= a)%N -> ge_ids a t = true -> ge_ids b t = true.
+Proof.
+  intros Hab. apply all_ids_impl. intros j Hj. apply N.leb_le in Hj. apply N.leb_le. lia.
+Qed.
+
+(* frame: a mutation of a container that does not occur in t is not seen from t *)
+Lemma upd_frame i m t : all_ids (fun j => negb (N.eqb j i)) t = true -> upd i m t = t.
+Proof.
+  induction t as [a|j kv IH|j xs IH] using pv_ind'; [reflexivity| |].
+  - rewrite all_ids_PD, upd_PD. intros H. apply andb_true_iff in H. destruct H as [H1 H2].
+    apply negb_true_iff in H1. rewrite H1.
+    f_equal. unfold upd_kv. rewrite forallb_forall in H2. rewrite Forall_forall in IH.
+    rewrite <- (map_id kv) at 2. apply map_ext_in. intros [k v] He. cbn [fst snd]. f_equal. apply (IH _ He). apply (H2 _ He).
+  - rewrite all_ids_PL, upd_PL. intros H. apply andb_true_iff in H. destruct H as [H1 H2].
+    apply negb_true_iff in H1. rewrite H1.
+    f_equal. rewrite forallb_forall in H2. rewrite Forall_forall in IH.
+    rewrite <- (map_id xs) at 2. apply map_ext_in. intros v He. apply (IH _ He). apply (H2 _ He).
+Qed.
+Lemma upd_frame_lt n i m t : lt_ids n t = true -> (n <= i)%N -> upd i m t = t.
+Proof.
+  intros H Hi. apply upd_frame. revert H. apply all_ids_impl. intros j Hj. apply N.ltb_lt in Hj.
+  apply negb_true_iff. apply N.eqb_neq. lia.
+Qed.
+Lemma apply_log_frame n lg : forall t, lt_ids n t = true -> targets_ge n lg = true -> apply_log lg t = t.
+Proof.
+  unfold apply_log, targets_ge. induction lg as [|[i m] lg IH]; intros t Ht Hl; [reflexivity|].
+  cbn [fold_left forallb fst snd] in *. apply andb_true_iff in Hl. destruct Hl as [H1 H2]. apply N.leb_le in H1.
+  rewrite (upd_frame_lt n i m t Ht H1). apply IH; assumption.
+Qed.
+
+Lemma lt_bound t : lt_ids (bound t) t = true.
+Proof.
+  unfold lt_ids. induction t as [a|i kv IH|i xs IH] using pv_ind'; [reflexivity| |].
+  - rewrite all_ids_PD, bound_PD. apply andb_true_iff. split; [apply N.ltb_lt; lia|].
+    apply forallb_forall. intros e He. rewrite Forall_forall in IH.
+    apply (lt_ids_mono (bound (snd e))); [|apply (IH e He)].
+    clear IH. induction kv as [|e' r IHr]; [destruct He|]. cbn [fold_right]. destruct He as [->|He]; [lia|].
+    specialize (IHr He). lia.
+  - rewrite all_ids_PL, bound_PL. apply andb_true_iff. split; [apply N.ltb_lt; lia|].
+    apply forallb_forall. intros e He. rewrite Forall_forall in IH.
+    apply (lt_ids_mono (bound e)); [|apply (IH e He)].
+    clear IH. induction xs as [|e' r IHr]; [destruct He|]. cbn [fold_right]. destruct He as [->|He]; [lia|].
+    specialize (IHr He). lia.
+Qed.
+
+(* deepclone only makes new containers *)
+Lemma ge_shift n t : ge_ids n (shift n t) = true.
+Proof.
+  unfold ge_ids. induction t as [a|i kv IH|i xs IH] using pv_ind'; [reflexivity| |].
+  - rewrite shift_PD, all_ids_PD. apply andb_true_iff. split; [apply N.leb_le; lia|].
+    rewrite forallb_forall. intros e He. apply in_map_iff in He. destruct He as [e0 [<- He0]]. cbn [snd].
+    rewrite Forall_forall in IH. apply (IH e0 He0).
+  - rewrite shift_PL, all_ids_PL. apply andb_true_iff. split; [apply N.leb_le; lia|].
+    rewrite forallb_forall. intros e He. apply in_map_iff in He. destruct He as [e0 [<- He0]].
+    rewrite Forall_forall in IH. apply (IH e0 He0).
+Qed.
+
+(* every container a mutation brings in is new *)
+Definition mut_ge (n : N) (m : mutn) : bool :=
+  match m with MSet _ v => ge_ids n v | MExtend ys => forallb (ge_ids n) ys | _ => true end.
+Definition log_ok (n : N) (lg : wlog) : bool := forallb (fun e => N.leb n (fst e) && mut_ge n (snd e)) lg.
+
+Lemma forallb_assoc_remove {A} (f : str * A -> bool) k l : forallb f l = true -> forallb f (assoc_remove k l) = true.
+Proof.
+  induction l as [|[k' v] r IH]; [reflexivity|]. cbn [forallb assoc_remove]. intros H. apply andb_true_iff in H. destruct H as [H1 H2].
+  destruct (str_eqb k k'); [apply IH; exact H2|]. cbn [forallb]. rewrite H1. apply IH. exact H2.
+Qed.
+Lemma forallb_assoc_set {A} (f : str * A -> bool) k v l : (forall k', f (k', v) = true) -> forallb f l = true -> forallb f (assoc_set k v l) = true.
+Proof.
+  intros Hv. induction l as [|[k' v'] r IH]; [intros _; cbn [assoc_set forallb]; rewrite Hv; reflexivity|].
+  cbn [forallb assoc_set]. intros H. apply andb_true_iff in H. destruct H as [H1 H2].
+  destruct (str_eqb k k'); cbn [forallb]; [rewrite Hv, H2; reflexivity | rewrite H1; apply IH; exact H2].
+Qed.
+Lemma forallb_remove_first (f : pv -> bool) x l : forallb f l = true -> forallb f (remove_first x l) = true.
+Proof.
+  induction l as [|v r IH]; [reflexivity|]. cbn [forallb remove_first]. intros H. apply andb_true_iff in H. destruct H as [H1 H2].
+  destruct (atom_is_str x v); [exact H2|]. cbn [forallb]. rewrite H1. apply IH. exact H2.
+Qed.
+
+Lemma ge_do_mut n m t : ge_ids n t = true -> mut_ge n m = true -> ge_ids n (do_mut m t) = true.
+Proof.
+  unfold ge_ids. intros Ht Hm. destruct m as [k|k v|x|ys], t as [a|i kv|i xs]; cbn [do_mut]; try exact Ht.
+  - rewrite all_ids_PD in *. apply andb_true_iff in Ht. destruct Ht as [H1 H2]. rewrite H1. apply forallb_assoc_remove. exact H2.
+  - rewrite all_ids_PD in *. apply andb_true_iff in Ht. destruct Ht as [H1 H2]. rewrite H1. apply forallb_assoc_set; [intros; exact Hm | exact H2].
+  - rewrite all_ids_PL in *. apply andb_true_iff in Ht. destruct Ht as [H1 H2]. rewrite H1. apply forallb_remove_first. exact H2.
+  - rewrite all_ids_PL in *. apply andb_true_iff in Ht. destruct Ht as [H1 H2]. rewrite H1. rewrite forallb_app, H2. exact Hm.
+Qed.
+
+Lemma ge_upd n i m t : ge_ids n t = true -> mut_ge n m = true -> ge_ids n (upd i m t) = true.
+Proof.
+  intros Ht Hm. revert Ht. induction t as [a|j kv IH|j xs IH] using pv_ind'; [intros; reflexivity| |].
+  - intros Ht. rewrite upd_PD.
+    assert (H' : ge_ids n (PD j (upd_kv i m kv)) = true).
+    { unfold ge_ids in *. rewrite all_ids_PD in *. apply andb_true_iff in Ht. destruct Ht as [H1 H2]. rewrite H1. cbn [andb].
+      rewrite forallb_forall in *. intros e He. unfold upd_kv in He. apply in_map_iff in He. destruct He as [e0 [<- He0]]. cbn [snd].
+      rewrite Forall_forall in IH. apply (IH e0 He0). apply (H2 e0 He0). }
+    destruct (N.eqb j i); [apply ge_do_mut; assumption | exact H'].
+  - intros Ht. rewrite upd_PL.
+    assert (H' : ge_ids n (PL j (map (upd i m) xs)) = true).
+    { unfold ge_ids in *. rewrite all_ids_PL in *. apply andb_true_iff in Ht. destruct Ht as [H1 H2]. rewrite H1. cbn [andb].
+      rewrite forallb_forall in *. intros e He. apply in_map_iff in He. destruct He as [e0 [<- He0]].
+      rewrite Forall_forall in IH. apply (IH e0 He0). apply (H2 e0 He0). }
+    destruct (N.eqb j i); [apply ge_do_mut; assumption | exact H'].
+Qed.
+
+Lemma ge_assoc_get n k kv v : forallb (fun e : str * pv => ge_ids n (snd e)) kv = true -> assoc_get k kv = Some v -> ge_ids n v = true.
+Proof.
+  induction kv as [|[k' v'] r IH]; [discriminate|]. cbn [forallb assoc_get snd]. intros H. apply andb_true_iff in H. destruct H as [H1 H2].
+  destruct (str_eqb k k'); [intros E; inversion E; subst; exact H1 | apply IH; exact H2].
+Qed.
+Lemma ge_d_get n k t v : ge_ids n t = true -> d_get k t = Some v -> ge_ids n v = true.
+Proof.
+  destruct t as [a|i kv|i xs]; cbn [d_get]; try discriminate. unfold ge_ids at 1. rewrite all_ids_PD. intros H. apply andb_true_iff in H.
+  destruct H as [_ H]. apply ge_assoc_get. exact H.
+Qed.
+Lemma ge_root n t i : ge_ids n t = true -> root_id t = Some i -> (n <= i)%N.
+Proof.
+  destruct t as [a|j kv|j xs]; cbn [root_id]; try discriminate; unfold ge_ids; [rewrite all_ids_PD | rewrite all_ids_PL];
+    intros H E; inversion E; subst; apply andb_true_iff in H; destruct H as [H _]; apply N.leb_le in H; exact H.
+Qed.
+Lemma ge_d_get_id n k t i : ge_ids n t = true -> d_get_id k t = Some i -> (n <= i)%N.
+Proof.
+  unfold d_get_id. destruct (d_get k t) as [v|] eqn:E; [|discriminate]. intros H. apply (ge_root n v). apply (ge_d_get n k t v H E).
+Qed.
+
+Lemma ge_apply_log n lg : forall t, ge_ids n t = true -> log_ok n lg = true -> ge_ids n (apply_log lg t) = true.
+Proof.
+  unfold apply_log, log_ok. induction lg as [|[i m] lg IH]; intros t Ht Hl; [exact Ht|].
+  cbn [fold_left forallb fst snd] in *. apply andb_true_iff in Hl. destruct Hl as [H1 H2]. apply andb_true_iff in H1. destruct H1 as [_ H1].
+  apply IH; [apply ge_upd; assumption | exact H2].
+Qed.
+Lemma log_ok_targets n lg : log_ok n lg = true -> targets_ge n lg = true.
+Proof.
+  unfold log_ok, targets_ge. rewrite !forallb_forall. intros H e He. specialize (H e He). apply andb_true_iff in H. destruct H as [H _]. exact H.
+Qed.
+Lemma log_ok_app n a b : log_ok n a = true -> log_ok n b = true -> log_ok n (a ++ b) = true.
+Proof. unfold log_ok. intros Ha Hb. rewrite forallb_app, Ha, Hb. reflexivity. Qed.
+Lemma mut_ge_mono a b m : (b <= a)%N -> mut_ge a m = true -> mut_ge b m = true.
+Proof.
+  intros Hab. destruct m as [k|k v|x|ys]; cbn [mut_ge]; try (intros; reflexivity).
+  - apply ge_ids_mono. exact Hab.
+  - rewrite !forallb_forall. intros H e He. apply (ge_ids_mono a b); [exact Hab | apply H; exact He].
+Qed.
+Lemma log_ok_mono a b lg : (b <= a)%N -> log_ok a lg = true -> log_ok b lg = true.
+Proof.
+  intros Hab. unfold log_ok. rewrite !forallb_forall. intros H e He. specialize (H e He). apply andb_true_iff in H. destruct H as [H1 H2].
+  apply andb_true_iff. split; [apply N.leb_le in H1; apply N.leb_le; lia | apply (mut_ge_mono a b); assumption].
+Qed.
+
+(* the invariant of a conversion whose working value was allocated at or after n: it only touches such containers *)
+Definition inv (n : N) (s : cst) : Prop :=
+  ge_ids n (cst_w s) = true /\ log_ok n (snd (fst s)) = true /\ (n <= snd s)%N.
+
+Lemma emit_inv n i m s : inv n s -> (n <= i)%N -> mut_ge n m = true -> inv n (emit i m s).
+Proof.
+  destruct s as [[w lg] c]. unfold inv, emit, cst_w. cbn [fst snd]. intros [H1 [H2 H3]] Hi Hm. repeat split.
+  - apply ge_upd; assumption.
+  - apply log_ok_app; [exact H2|]. unfold log_ok. cbn [forallb fst snd]. rewrite Hm. apply N.leb_le in Hi. rewrite Hi. reflexivity.
+  - exact H3.
+Qed.
+Lemma emit_opt_inv n i m s : inv n s -> (forall j, i = Some j -> (n <= j)%N) -> mut_ge n m = true -> inv n (emit_opt i m s).
+Proof.
+  intros Hs Hi Hm. destruct i as [j|]; cbn [emit_opt]; [apply emit_inv; auto | exact Hs].
+Qed.
+
+Lemma rw_step_inv n pred rid pid s forb item :
+  inv n s -> (forall j, rid = Some j -> (n <= j)%N) -> (forall j, pid = Some j -> (n <= j)%N) ->
+  inv n (fst (rw_step pred rid pid (s, forb) item)).
+Proof.
+  intros Hs Hr Hp. unfold rw_step. destruct item as [name sub]. destruct (pred sub); cbn [fst]; [|exact Hs].
+  apply emit_opt_inv; [|exact Hp|reflexivity].
+  destruct (list_has name (d_get s_required (cst_w s))); [apply emit_opt_inv; [exact Hs|exact Hr|reflexivity] | exact Hs].
+Qed.
+Lemma rw_fold_inv n pred rid pid items : forall acc,
+  inv n (fst acc) -> (forall j, rid = Some j -> (n <= j)%N) -> (forall j, pid = Some j -> (n <= j)%N) ->
+  inv n (fst (fold_left (rw_step pred rid pid) items acc)).
+Proof.
+  induction items as [|it r IH]; intros [s forb] Hs Hr Hp; [exact Hs|]. cbn [fold_left]. apply IH; [|exact Hr|exact Hp].
+  apply rw_step_inv; assumption.
+Qed.
+
+Lemma inv_w n s : inv n s -> ge_ids n (cst_w s) = true.
+Proof. intros [H _]. exact H. Qed.
+Lemma inv_counter n s : inv n s -> (n <= snd s)%N.
+Proof. intros [_ [_ H]]. exact H. Qed.
+Lemma inv_bump n w lg c : inv n (w, lg, c) -> inv n (w, lg, (c + 1)%N).
+Proof. unfold inv, cst_w. cbn [fst snd]. intros [H1 [H2 H3]]. repeat split; [exact H1|exact H2|lia]. Qed.
+Lemma ge_fresh_dict n c : (n <= c)%N -> ge_ids n (PD c []) = true.
+Proof. intros H. unfold ge_ids. cbn [all_ids]. apply N.leb_le in H. rewrite H. reflexivity. Qed.
+Lemma ge_fresh_list n c xs : (n <= c)%N -> forallb (ge_ids n) xs = true -> ge_ids n (PL c xs) = true.
+Proof. intros H Hx. unfold ge_ids in *. rewrite all_ids_PL. apply N.leb_le in H. rewrite H. exact Hx. Qed.
+Lemma ge_strs n (l : list str) : forallb (ge_ids n) (map (fun x => PA (AStr x)) l) = true.
+Proof. induction l as [|x r IH]; [reflexivity|]. cbn [map forallb]. exact IH. Qed.
+Lemma ge_dedup n l : forall seen, forallb (ge_ids n) l = true -> forallb (ge_ids n) (dedup_strs seen l) = true.
+Proof.
+  induction l as [|v r IH]; intros seen H; [reflexivity|]. cbn [forallb] in H. apply andb_true_iff in H. destruct H as [H1 H2].
+  cbn [dedup_strs]. destruct v as [[| | |s]|i kv|i xs]; try (cbn [forallb]; rewrite H1; apply IH; exact H2).
+  destruct (has_key s seen); [apply IH; exact H2 | cbn [forallb]; rewrite H1; apply IH; exact H2].
+Qed.
+
+Definition cur_not (x : cst) : pv := match d_get s_not (cst_w x) with Some d => d | None => PA ANull end.
+Lemma forbid_inv n wid forb s : inv n s -> (n <= wid)%N -> inv n (forbid wid forb s).
+Proof.
+  intros Hs Hw. unfold forbid.
+  (* not_schema *)
+  assert (H1 : exists s1 nid, (match d_get_id s_not (cst_w s) with
+                               | Some i => (s, i)
+                               | None => let '(w, lg, n0) := s in (emit wid (MSet s_not (PD n0 [])) (w, lg, (n0 + 1)%N), n0)
+                               end) = (s1, nid) /\ inv n s1 /\ (n <= nid)%N).
+  { destruct (d_get_id s_not (cst_w s)) as [i|] eqn:E.
+    - exists s, i. split; [reflexivity|]. split; [exact Hs|]. apply (ge_d_get_id n s_not (cst_w s)); [apply inv_w; exact Hs | exact E].
+    - destruct s as [[w lg] c]. eexists. exists c. split; [reflexivity|]. pose proof (inv_counter _ _ Hs) as Hc. cbn [snd] in Hc. split; [|exact Hc].
+      apply emit_inv; [apply inv_bump; exact Hs | exact Hw | cbn [mut_ge]; apply ge_fresh_dict; exact Hc]. }
+  destruct H1 as [s1 [nid [E1 [Hs1 Hnid]]]]. rewrite E1. clear E1.
+  (* already_forbidden *)
+  assert (Hcur : forall x, inv n x -> ge_ids n (cur_not x) = true).
+  { intros x Hx. unfold cur_not. destruct (d_get s_not (cst_w x)) as [d|] eqn:E; [|reflexivity]. apply (ge_d_get n s_not (cst_w x)); [apply inv_w; exact Hx | exact E]. }
+  assert (H2 : exists s2 lid, (match d_get_id s_required (cur_not s1) with
+                               | Some i => (s1, i)
+                               | None => let '(w, lg, n0) := s1 in (emit nid (MSet s_required (PL n0 [])) (w, lg, (n0 + 1)%N), n0)
+                               end) = (s2, lid) /\ inv n s2 /\ (n <= lid)%N).
+  { destruct (d_get_id s_required (cur_not s1)) as [i|] eqn:E.
+    - exists s1, i. split; [reflexivity|]. split; [exact Hs1|]. apply (ge_d_get_id n s_required (cur_not s1)); [apply Hcur; exact Hs1 | exact E].
+    - destruct s1 as [[w lg] c]. eexists. exists c. split; [reflexivity|]. pose proof (inv_counter _ _ Hs1) as Hc. cbn [snd] in Hc. split; [|exact Hc].
+      apply emit_inv; [apply inv_bump; exact Hs1 | exact Hnid | cbn [mut_ge]; apply ge_fresh_list; [exact Hc | reflexivity]]. }
+  destruct H2 as [s2 [lid [E2 [Hs2 Hlid]]]]. unfold cur_not in E2. rewrite E2. clear E2.
+  (* extend *)
+  assert (Hs3 : inv n (emit lid (MExtend (map (fun x => PA (AStr x)) forb)) s2)).
+  { apply emit_inv; [exact Hs2 | exact Hlid | cbn [mut_ge]; apply ge_strs]. }
+  set (s3 := emit lid (MExtend (map (fun x => PA (AStr x)) forb)) s2) in *.
+  assert (Hal : forallb (ge_ids n) (match d_get s_required (cur_not s3) with Some (PL _ xs) => xs | _ => [] end) = true).
+  { destruct (d_get s_required (cur_not s3)) as [v|] eqn:E; [|reflexivity]. destruct v as [a|i kv|i xs]; try reflexivity.
+    pose proof (ge_d_get n s_required (cur_not s3) _ (Hcur s3 Hs3) E) as H. unfold ge_ids in H. rewrite all_ids_PL in H. apply andb_true_iff in H. destruct H as [_ H]. exact H. }
+  unfold cur_not in Hal. destruct s3 as [[w lg] c] eqn:E3. pose proof (inv_counter _ _ Hs3) as Hc. cbn [snd] in Hc.
+  apply emit_inv; [apply inv_bump; exact Hs3 | exact Hnid |]. cbn [mut_ge]. apply ge_fresh_list; [exact Hc|]. apply ge_dedup. exact Hal.
+Qed.
+
+Lemma rewrite_properties_inv n pred wid s : inv n s -> (n <= wid)%N -> inv n (rewrite_properties pred wid s).
+Proof.
+  intros Hs Hw. unfold rewrite_properties.
+  pose proof (rw_fold_inv n pred (d_get_id s_required (cst_w s)) (d_get_id s_properties (cst_w s))
+                (match d_get s_properties (cst_w s) with Some (PD _ kv) => kv | _ => [] end) (s, []) Hs
+                (fun j E => ge_d_get_id n _ _ j (inv_w _ _ Hs) E) (fun j E => ge_d_get_id n _ _ j (inv_w _ _ Hs) E)) as H1.
+  destruct (fold_left _ _ (s, [])) as [s1 forb]. cbn [fst] in H1.
+  assert (H2 : inv n (match forb with [] => s1 | _ => forbid wid forb s1 end)).
+  { destruct forb; [exact H1 | apply forbid_inv; assumption]. }
+  set (s2 := match forb with [] => s1 | _ => forbid wid forb s1 end) in *.
+  assert (H3 : inv n (if get_truthy s_required (cst_w s2) then s2 else emit wid (MDel s_required) s2)).
+  { destruct (get_truthy s_required (cst_w s2)); [exact H2 | apply emit_inv; [exact H2|exact Hw|reflexivity]]. }
+  set (s3 := if get_truthy s_required (cst_w s2) then s2 else emit wid (MDel s_required) s2) in *.
+  destruct (get_truthy s_properties (cst_w s3)); [exact H3 | apply emit_inv; [exact H3|exact Hw|reflexivity]].
+Qed.
+
+Lemma to_json_schema_inv m copy resp n t :
+  (copy = true \/ ge_ids m t = true) -> (m <= n)%N -> inv m (to_json_schema copy resp n t).
+Proof.
+  intros Hc Hmn. unfold to_json_schema.
+  assert (H0 : exists w n1, (if copy then deepclone n t else (t, n)) = (w, n1) /\ ge_ids m w = true /\ (m <= n1)%N).
+  { destruct copy.
+    - eexists. eexists. split; [reflexivity|]. split; [apply (ge_ids_mono n m); [exact Hmn | apply ge_shift] | lia].
+    - exists t, n. split; [reflexivity|]. destruct Hc as [Hc|Hc]; [discriminate|]. split; assumption. }
+  destruct H0 as [w [n1 [E [Hw Hn1]]]]. rewrite E.
+  assert (Hbase : inv m (w, [], n1)). { unfold inv, cst_w. cbn [fst snd]. repeat split; [exact Hw | exact Hn1]. }
+  destruct w as [a|wid kv|i xs]; try exact Hbase.
+  destruct (match d_get s_type (PD wid kv) with Some v => atom_is_str s_object v | None => false end); [|exact Hbase].
+  apply rewrite_properties_inv; [exact Hbase|]. apply (ge_root m (PD wid kv)); [exact Hw | reflexivity].
+Qed.
+
+(* the two inner loops of transform, named *)
+Definition tr_list (tr : N -> pv -> option cst) : N -> list pv -> option (list pv * wlog * N) :=
+  fix go (n : N) (l : list pv) : option (list pv * wlog * N) :=
+  match l with
+  | [] => Some ([], [], n)
+  | x :: r =>
+      match tr n x with
+      | None => None
+      | Some (x', lx, n1) =>
+          match go n1 r with
+          | None => None
+          | Some (r', lr, n2) => Some (x' :: r', lx ++ lr, n2)
+          end
+      end
+  end.
+Definition tr_items (tr : N -> pv -> option cst) (wid : N) : pv -> wlog -> N -> list (str * pv) -> option cst :=
+  fix go (w : pv) (lg : wlog) (n : N) (items : list (str * pv)) : option cst :=
+  match items with
+  | [] => Some (w, lg, n)
+  | (k, _) :: r =>
+      match d_get k w with
+      | None => go w lg n r
+      | Some sub =>
+          match tr n sub with
+          | None => None
+          | Some (c, lgc, n1) => go (upd wid (MSet k c) (apply_log lgc w)) (lg ++ lgc ++ [(wid, MSet k c)]) n1 r
+          end
+      end
+  end.
+Lemma tr_list_nil tr n : tr_list tr n [] = Some ([], [], n).
+Proof. reflexivity. Qed.
+Lemma tr_list_cons tr n x r : tr_list tr n (x :: r) =
+  match tr n x with
+  | None => None
+  | Some (x', lx, n1) => match tr_list tr n1 r with None => None | Some (r', lr, n2) => Some (x' :: r', lx ++ lr, n2) end
+  end.
+Proof. reflexivity. Qed.
+Lemma tr_items_nil tr wid w lg n : tr_items tr wid w lg n [] = Some (w, lg, n).
+Proof. reflexivity. Qed.
+Lemma tr_items_cons tr wid w lg n k v r : tr_items tr wid w lg n ((k, v) :: r) =
+  match d_get k w with
+  | None => tr_items tr wid w lg n r
+  | Some sub =>
+      match tr n sub with
+      | None => None
+      | Some (c, lgc, n1) => tr_items tr wid (upd wid (MSet k c) (apply_log lgc w)) (lg ++ lgc ++ [(wid, MSet k c)]) n1 r
+      end
+  end.
+Proof. reflexivity. Qed.
+Lemma transform_S f copy resp n t :
+  transform (S f) copy resp n t =
+  match t with
+  | PA _ => Some (t, [], n)
+  | PL _ xs => match tr_list (transform f copy resp) (n + 1)%N xs with
+               | None => None
+               | Some (xs', lg, n') => Some (PL n xs', lg, n')
+               end
+  | PD _ _ => let '(w, lg0, n1) := to_json_schema copy resp n t in
+              match w with
+              | PD wid kv => tr_items (transform f copy resp) wid w lg0 n1 kv
+              | _ => Some (w, lg0, n1)
+              end
+  end.
+Proof. destruct t; reflexivity. Qed.
+
+Section TransformInv.
+  Variables (m : N) (copy : bool) (tr : N -> pv -> option cst).
+  Hypothesis Htr : forall n t r, (copy = true \/ ge_ids m t = true) -> (m <= n)%N -> tr n t = Some r -> inv m r.
+
+  Lemma tr_list_inv : forall l n0 xs' lg n2,
+    (m <= n0)%N -> (copy = true \/ forallb (ge_ids m) l = true) -> tr_list tr n0 l = Some (xs', lg, n2) ->
+    forallb (ge_ids m) xs' = true /\ log_ok m lg = true /\ (m <= n2)%N.
+  Proof.
+    induction l as [|x r IH]; intros n0 xs' lg n2 Hn Hc E.
+    - rewrite tr_list_nil in E. inversion E; subst. repeat split; try reflexivity; exact Hn.
+    - rewrite tr_list_cons in E. destruct (tr n0 x) as [[[x' lx] n1]|] eqn:Ex; [|discriminate].
+      destruct (tr_list tr n1 r) as [[[r' lr] n2']|] eqn:Er; [|discriminate]. inversion E; subst. clear E.
+      assert (Hx : inv m (x', lx, n1)).
+      { apply (Htr n0 x); [|exact Hn|exact Ex]. destruct Hc as [Hc|Hc]; [left; exact Hc|right]. cbn [forallb] in Hc. apply andb_true_iff in Hc. apply Hc. }
+      destruct Hx as [Hx1 [Hx2 Hx3]]. unfold cst_w in Hx1. cbn [fst snd] in *.
+      destruct (IH n1 r' lr n2 Hx3) as [Hr1 [Hr2 Hr3]]; [|exact Er|].
+      { destruct Hc as [Hc|Hc]; [left; exact Hc|right]. cbn [forallb] in Hc. apply andb_true_iff in Hc. apply Hc. }
+      repeat split; [cbn [forallb]; rewrite Hx1; exact Hr1 | apply log_ok_app; assumption | exact Hr3].
+  Qed.
+
+  Lemma tr_items_inv wid : forall items w lg n0 r,
+    inv m (w, lg, n0) -> (m <= wid)%N -> tr_items tr wid w lg n0 items = Some r -> inv m r.
+  Proof.
+    induction items as [|[k v0] items IH]; intros w lg n0 r Hs Hw E.
+    - rewrite tr_items_nil in E. inversion E; subst. exact Hs.
+    - rewrite tr_items_cons in E. destruct (d_get k w) as [sub|] eqn:Eg; [|apply (IH w lg n0 r Hs Hw E)].
+      destruct (tr n0 sub) as [[[c lgc] n1]|] eqn:Et; [|discriminate].
+      destruct Hs as [Hs1 [Hs2 Hs3]]. unfold cst_w in Hs1. cbn [fst snd] in *.
+      assert (Hc : inv m (c, lgc, n1)).
+      { apply (Htr n0 sub); [right; apply (ge_d_get m k w); assumption | exact Hs3 | exact Et]. }
+      destruct Hc as [Hc1 [Hc2 Hc3]]. unfold cst_w in Hc1. cbn [fst snd] in *.
+      apply (IH (upd wid (MSet k c) (apply_log lgc w)) (lg ++ lgc ++ [(wid, MSet k c)]) n1 r); [|exact Hw|exact E]. unfold inv, cst_w. cbn [fst snd]. repeat split.
+      + apply ge_upd; [apply ge_apply_log; assumption | exact Hc1].
+      + apply log_ok_app; [exact Hs2|]. apply log_ok_app; [exact Hc2|]. unfold log_ok. cbn [forallb fst snd mut_ge].
+        rewrite Hc1. apply N.leb_le in Hw. rewrite Hw. reflexivity.
+      + exact Hc3.
+  Qed.
+End TransformInv.
+
+Lemma transform_inv m copy resp : forall fuel n t r,
+  (copy = true \/ ge_ids m t = true) -> (m <= n)%N -> transform fuel copy resp n t = Some r -> inv m r.
+Proof.
+  induction fuel as [|f IH]; intros n t r Hc Hn E; [discriminate|].
+  rewrite transform_S in E. destruct t as [a|i kv|i xs].
+  - inversion E; subst. unfold inv, cst_w. cbn [fst snd]. repeat split; try reflexivity; exact Hn.
+  - pose proof (to_json_schema_inv m copy resp n (PD i kv) Hc Hn) as Hl.
+    destruct (to_json_schema copy resp n (PD i kv)) as [[w lg0] n1].
+    destruct w as [a|wid kv'|j xs]; try (inversion E; subst; exact Hl).
+    apply (tr_items_inv m copy (transform f copy resp) IH wid kv' (PD wid kv') lg0 n1 r Hl); [|exact E].
+    apply (ge_root m (PD wid kv')); [apply (inv_w _ _ Hl) | reflexivity].
+  - destruct (tr_list (transform f copy resp) (n + 1)%N xs) as [[[xs' lg] n']|] eqn:El; [|discriminate]. inversion E; subst. clear E.
+    destruct (tr_list_inv m copy (transform f copy resp) IH xs (n + 1)%N xs' lg n') as [H1 [H2 H3]]; [lia| |exact El|].
+    { destruct Hc as [Hc|Hc]; [left; exact Hc|right]. unfold ge_ids in Hc. rewrite all_ids_PL in Hc. apply andb_true_iff in Hc. apply Hc. }
+    unfold inv, cst_w. cbn [fst snd]. repeat split; [apply ge_fresh_list; assumption | exact H2 | exact H3].
+Qed.
+
+(* T1: a conversion with copy = true does not change any object that was alive when it started *)
+Lemma conversion_pure fuel resp n t r lg n' o :
+  transform fuel true resp n t = Some (r, lg, n') -> lt_ids n o = true -> apply_log lg o = o.
+Proof.
+  intros E Ho. pose proof (transform_inv n true resp fuel n t _ (or_introl eq_refl) (N.le_refl n) E) as [_ [H _]]. cbn [fst snd] in H.
+  apply (apply_log_frame n); [exact Ho | apply log_ok_targets; exact H].
+Qed.
+Lemma level_pure resp n t o : lt_ids n o = true -> apply_log (snd (fst (to_json_schema true resp n t))) o = o.
+Proof.
+  intros Ho. pose proof (to_json_schema_inv n true resp n t (or_introl eq_refl) (N.le_refl n)) as [_ [H _]].
+  apply (apply_log_frame n); [exact Ho | apply log_ok_targets; exact H].
+Qed.
+(* ... and an in-place conversion of a clone (rewritten_components: transform(deepclone(schema), callback with copy = False)) does not either *)
+Lemma inplace_on_clone_pure fuel resp n t r lg n' o :
+  transform fuel false resp (snd (deepclone n t)) (fst (deepclone n t)) = Some (r, lg, n') -> lt_ids n o = true -> apply_log lg o = o.
+Proof.
+  intros E Ho. unfold deepclone in E. cbn [fst snd] in E.
+  pose proof (transform_inv n false resp fuel _ _ _ (or_intror (ge_shift n t)) (N.le_add_r n (bound t)) E) as [_ [H _]]. cbn [fst snd] in H.
+  apply (apply_log_frame n); [exact Ho | apply log_ok_targets; exact H].
+Qed.
+
+(* T2: no history changes the raw document *)
+Lemma step_pure fuel store ev s' : step fuel true store ev = Some s' -> s' = store.
+Proof.
+  destruct ev as [loc resp|body|loc]; cbn [step].
+  - destruct (d_get loc store) as [doc|]; [|intros E; inversion E; reflexivity].
+    destruct (transform fuel true resp (bound store) doc) as [[[r lg] n']|] eqn:Et; [|discriminate].
+    intros E. inversion E; subst. apply (conversion_pure _ _ _ _ _ _ _ _ Et). apply lt_bound.
+  - unfold gen_schema. destruct (label (bound store) body) as [b n1]. destruct (inline fuel store n1 b) as [[b' n2]|]; [|intros E; inversion E; reflexivity].
+    destruct (transform fuel true false (N.max (N.max n2 (bound b')) (bound store)) b') as [[[r lg] n']|] eqn:Et; [|intros E; inversion E; reflexivity].
+    intros E. inversion E; subst. apply (conversion_pure _ _ _ _ _ _ _ _ Et). apply (lt_ids_mono (bound store)); [lia | apply lt_bound].
+  - destruct (d_get loc store) as [doc|]; [|intros E; inversion E; reflexivity]. unfold deepclone.
+    destruct (transform fuel false false (bound store + bound doc)%N (shift (bound store) doc)) as [[[r lg] n']|] eqn:Et; [|discriminate].
+    intros E. inversion E; subst. apply (inplace_on_clone_pure fuel false (bound store) doc r lg n'); [exact Et | apply lt_bound].
+Qed.
+Lemma run_pure fuel : forall h store s', run fuel true store h = Some s' -> s' = store.
+Proof.
+  induction h as [|ev h IH]; intros store s' E; cbn [run] in E; [inversion E; reflexivity|].
+  destruct (step fuel true store ev) as [s1|] eqn:Es; [|discriminate]. apply step_pure in Es. subst s1. apply IH. exact E.
+Qed.
+(* T3: the generation schema an operation gets does not depend on what was converted / validated before it was initialised *)
+Lemma gen_schema_history_independent fuel h store s' body :
+  run fuel true store h = Some s' -> gen_schema fuel true s' body = gen_schema fuel true store body.
+Proof. intros E. rewrite (run_pure fuel h store s' E). reflexivity. Qed.
+
+(* non-vacuity and sensitivity: a User component with a readOnly id, a name and a REQUIRED writeOnly password, referenced by
+   a response and by the request body of another operation *)
+Definition k_u : str := [35; 117]%N.
+Definition ex_user : json :=
+  JObj [(s_type, JStr s_object);
+        (s_properties, JObj [([105]%N, JObj [(s_readOnly, JBool true)]); ([110]%N, JObj []); ([112]%N, JObj [(s_writeOnly, JBool true)])]);
+        (s_required, JArr [JStr [110]%N; JStr [112]%N])].
+Definition ex_store : pv := fst (label 1%N (JObj [(k_u, ex_user)])).
+Definition ex_body : json := JObj [(s_ref, JStr k_u)].
+Definition gen_erased (fuel : nat) (copy : bool) (store : pv) (body : json) : option json :=
+  match gen_schema fuel copy store body with Some (r, _, _) => Some (erase r) | None => None end.
+Definition j_required_has (k : str) (j : option json) : bool :=
+  match j with
+  | Some (JObj kvs) =>
+      match assoc_get s_required kvs with
+      | Some (JArr l) => existsb (fun x => match x with JStr s => str_eqb k s | _ => false end) l
+      | _ => false
+      end
+  | _ => false
+  end.
+Lemma history_examples :
+  (* the code (copy = true): the response-side conversion of User really rewrites it, the document stays as it was, and the
+     operation initialised afterwards still requires password *)
+  (exists r lg n', transform 20 true true (bound ex_store) (match d_get k_u ex_store with Some d => d | None => PA ANull end) = Some (r, lg, n')
+                   /\ lg <> [] /\ j_required_has [112]%N (Some (erase r)) = false) /\
+  run 20 true ex_store [EvConvert k_u true; EvInit ex_body] = Some ex_store /\
+  j_required_has [112]%N (gen_erased 20 true ex_store ex_body) = true /\
+  (* the same history with an in-place conversion: the document loses password and so does the generation schema *)
+  (exists s', run 20 false ex_store [EvConvert k_u true] = Some s' /\ erase s' <> erase ex_store /\
+              j_required_has [112]%N (gen_erased 20 true s' ex_body) = false).
+Proof.
+  split; [|split; [|split]].
+  - eexists. eexists. eexists. split; [vm_compute; reflexivity|]. split; [discriminate | vm_compute; reflexivity].
+  - vm_compute. reflexivity.
+  - vm_compute. reflexivity.
+  - eexists. split; [vm_compute; reflexivity|]. split; [vm_compute; discriminate | vm_compute; reflexivity].
+Qed.
